@@ -25,8 +25,8 @@ ASSUMPTIONS = [
     'subscription removed afterwards) is checked for every ordering',
 ]
 BOUNDS = {'quick': {'events': '3 (own + foreign, any reply position); 5 (own only, reply first)', 'directories': 2, 'services': 'own + one foreign sharing the directories', 'modes': 'first-upload and await-all'},
-          'thorough': {'events': 4, 'directories': 3}}
-OUTSIDE = ['more than 4 events / 3 directories', 'authenticated services']
+          'thorough': {'events': '4 (own + foreign, 2 directories, any reply position); 5 (own, 3 directories); 6 (own, 2 directories)'}}
+OUTSIDE = ['more than 4 mixed / 6 own events, more than 3 directories', 'authenticated services']
 
 OWN = 'ownserviceidaaaaaaaaaaaaaaaaaaaaaaaaaaaaaaaaaaaaaaaaaaaa'
 FOREIGN = 'foreignserviceidbbbbbbbbbbbbbbbbbbbbbbbbbbbbbbbbbbbbbbbb'
@@ -210,11 +210,33 @@ def c15_own5(e1: int, e2: int, e3: int, e4: int, e5: int, await_all: bool, fs: b
         return _wait(evs, 0, await_all, 2, fs)
 
 
-@cond(thorough=dict(parts=[{'e1': a, 'e2': b, 'await_all': m} for a in range(18) for b in range(18) for m in (False, True)], budget=300))
+@cond(thorough=dict(parts=[{'e1': a, 'e2': b, 'await_all': m} for a in range(12) for b in range(12) for m in (False, True)], budget=600))
 def c15_orderings4(e1: int, e2: int, e3: int, e4: int, reply_at: int, await_all: bool, fs: bool) -> str:
-    """4 events over 3 directories"""
-    evs = [_decode(e1, 3), _decode(e2, 3)] + [_decode(api.pick(e, 0, 17), 3) for e in (e3, e4)]
+    """4 events over 2 directories x {own, foreign}, any reply position, ephemeral and filesystem service"""
+    evs = [_decode(e1, 2), _decode(e2, 2)] + [_decode(api.pick(e, 0, 11), 2) for e in (e3, e4)]
     reply_at = api.pick(reply_at, 0, 4)
     fs = True if fs else False
     with api.no_tracing():
-        return _wait(evs, reply_at, await_all, 3, fs)
+        return _wait(evs, reply_at, await_all, 2, fs)
+
+
+def _decode_own3(e):
+    return (e % 3, True, e // 3)
+
+
+@cond(thorough=dict(parts=[{'e1': a, 'e2': b, 'await_all': m} for a in (0, 3, 6) for b in range(9) for m in (False, True)], budget=600))
+def c15_own5_3dirs(e1: int, e2: int, e3: int, e4: int, e5: int, await_all: bool, reply_at: int) -> str:
+    """5 own events over 3 directories (ephemeral service), reply before the first or the second event"""
+    evs = [_decode_own3(e1), _decode_own3(e2)] + [_decode_own3(api.pick(e, 0, 8)) for e in (e3, e4, e5)]
+    reply_at = api.pick(reply_at, 0, 1)
+    with api.no_tracing():
+        return _wait(evs, reply_at, await_all, 3, False)
+
+
+@cond(thorough=dict(parts=[{'e1': a, 'e2': b, 'await_all': m} for a in (0, 3) for b in range(6) for m in (False, True)], budget=600))
+def c15_own6(e1: int, e2: int, e3: int, e4: int, e5: int, e6: int, await_all: bool, fs: bool) -> str:
+    """6 own events over 2 directories, reply first"""
+    evs = [_decode_own(e1), _decode_own(e2)] + [_decode_own(api.pick(e, 0, 5)) for e in (e3, e4, e5, e6)]
+    fs = True if fs else False
+    with api.no_tracing():
+        return _wait(evs, 0, await_all, 2, fs)
